@@ -110,6 +110,7 @@ Proof.
     intros d Hd. cbn [sr_store s_docs] in Hd. apply filter_In in Hd. apply Hcov. apply Hd.
   - destruct (coll_id s coll); exact Hcov.
   - cbn [sr_store]. apply min_exp_covers.
+  - destruct (coll_id s coll); exact Hcov.
   - apply min_exp_covers.
 Qed.
 
